@@ -14,8 +14,10 @@ from .. import sx
 from ..impl import run_impl, CaseTimeout
 from ..model import run_model
 from . import c18
+from . import _c19_gen
 
 ASSUMPTIONS = [
+    _c19_gen.ASSUMPTION,
     'the learned densities are inputs of the model: read from get_density_estimation_results() at the scaled samples (C16/C17 cover them)',
     'the shuffle permutation (replayed from the numpy RNG state) and the iteration orders of the Python sets in move_boundaries_to_front / '
     'get_labels() (recomputed by the same Python expressions) are inputs of the model, validated by Coq checkers '
@@ -1182,7 +1184,9 @@ TRANSLATED_CASE = dict(seed=11, kind='corpus', name='prescaled-translated-accept
 
 
 def run(chk):
-    chk.coq_obligations()
+    gen_info = _c19_gen.regenerate(chk)
+    chk.coq_obligations(extra_props=_c19_gen.EXTRA_PROPS)
+    gen_problem = _c19_gen.diagnose(chk, gen_info)
     n = chk.n(200, 3000)
     nbig = chk.n(6, 40)
     chk.count('getter-tamper-histories=' + ('on' if tamper_enabled() else 'off (finding %s not registered)' % TAMPER_FINDING))
@@ -1199,6 +1203,7 @@ def run(chk):
                       dict(why='property predicates %r failed for this case when it ran after other cases in the same process, but hold when it runs alone in a '
                                'fresh process: state is shared between Classification objects / across calls in one process' % (lost,)), failing_input=False)
     judge(chk, cases, impl, c18.get_variant(chk)[:2] + get_cvariant(chk))
+    _c19_gen.finish(chk, gen_info, gen_problem)
 
 
 def judge(chk, cases, impl, variant):
